@@ -26,7 +26,9 @@ ASSUMPTIONS = [
     "pre-emption only at synchronisation and simevent calls; compiler reordering / torn reads of unsynchronised flags are out of reach",
 ]
 
-DELAYS = [1, 2, 5, 10, 10, 11, 20, 50, 100, 1000, 3600000]
+# ties, near ties, and far timers: an hour, just beyond 2^32 microseconds (71.6 min), a day, 2^31 ms and beyond 2^32 ms
+DELAYS = [1, 2, 5, 10, 10, 11, 20, 50, 100, 1000, 3600000, 4294968, 86400000, 2147483648, 4294967297]
+FAR = 3600000
 
 
 class Context(object):
@@ -60,7 +62,7 @@ def gen_plan(seed, k):
         sid = ids[i] if rp.random() < 0.8 else rp.choice(ids)
         onentry.add(El("send", {"event": "d%d" % i, "id": sid, "delay": "%dms" % d}, role="send", idx=i, delay=d, sendid=sid))
         sends.append((i, sid, d))
-        if d < 3600000:
+        if d < FAR:
             maxd = max(maxd, d)
         if rp.random() < (0.25 if not bulk else 0.02):
             onentry.add(El("cancel", {"sendid": rp.choice(ids + ["nosuch"])}, role="cancel"))
